@@ -151,15 +151,19 @@ func (h *HelloElemVersionBitmap) MarshalBinary() (data []byte, err error) {
 }
 
 func (h *HelloElemVersionBitmap) UnmarshalBinary(data []byte) error {
-	length := len(data)
 	read := 0
 	if err := h.HelloElemHeader.UnmarshalBinary(data[:4]); err != nil {
 		return err
 	}
 	read += int(h.HelloElemHeader.Len())
+	// the bitmaps end where the element's own length says, not where the message ends
+	length := int(h.Length)
+	if length > len(data) {
+		return errors.New("The []byte is too short to unmarshal a full HelloElemVersionBitmap message.")
+	}
 
 	h.Bitmaps = make([]uint32, 0)
-	for read < length {
+	for read+4 <= length {
 		h.Bitmaps = append(h.Bitmaps, binary.BigEndian.Uint32(data[read:read+4]))
 		read += 4
 	}
@@ -226,21 +230,24 @@ func (h *Hello) UnmarshalBinary(data []byte) error {
 	h.Elements = make([]HelloElem, 0)
 	for next < len(data) {
 		e := NewHelloElemHeader()
-		e.UnmarshalBinary(data[next:])
-
+		if err := e.UnmarshalBinary(data[next:]); err != nil {
+			return err
+		}
+		if e.Length < 4 {
+			return errors.New("The hello element length is invalid.")
+		}
 		switch e.Type {
 		case HelloElemType_VersionBitmap:
 			v := NewHelloElemVersionBitmap()
-			err = v.UnmarshalBinary(data[next:])
-			next += int(v.Len())
+			if err = v.UnmarshalBinary(data[next:]); err != nil {
+				return err
+			}
 			h.Elements = append(h.Elements, v)
 		default:
 			// skip an element of unknown type by its declared length
-			if e.Length < 4 {
-				return errors.New("The hello element length is invalid.")
-			}
-			next += int(e.Length)
 		}
+		// elements are padded to a multiple of 8 bytes
+		next += (int(e.Length) + 7) / 8 * 8
 	}
 	return err
 }
